@@ -26,6 +26,8 @@ from .. import c02_gray as GR
 PROP_FILES = [core.THEORIES / "C02" / "Props.v"]
 PREAMBLE = ("From SV Require Import C02.Decode.\nFrom Coq Require Import List ZArith QArith.\n"
             "Import ListNotations.\nOpen Scope Q_scope.\n")
+PREAMBLE_MB = ("From SV Require Import C02.Decode C02.CentroidOnly C02.MixedBatch.\nFrom Coq Require Import List ZArith QArith.\n"
+               "Import ListNotations.\nOpen Scope Q_scope.\n")
 SIGMA = F(3, 2)
 THR = 0.2
 LN_THR = F(-1609438, 1000000)           # ln 0.2
@@ -97,6 +99,35 @@ def si_axis(pre, n0, nm, nt, resized, s, ms):
     return a0, pad(nm, ms)
 
 
+def crop_hw(c):
+    """(crop height, crop width) of a case; `crop` is an int (square) or [height, width]."""
+    cr = c["crop"]
+    return (cr, cr) if isinstance(cr, int) else (int(cr[0]), int(cr[1]))
+
+
+def is_mixed(c):
+    return "sizes" in c
+
+
+def fsize(c, fid):
+    """(H, W) of frame `fid`: the size of the video it lives in (cases with `sizes`/`vid`: several videos
+    of DIFFERENT frame sizes in one labels file), else the case's single size."""
+    if is_mixed(c):
+        h, w = c["sizes"][c["vid"][fid]]
+        return int(h), int(w)
+    return c["H"], c["W"]
+
+
+def fview(c, fid):
+    """The case as seen by frame `fid`: same configuration, the frame's own H and W."""
+    if not is_mixed(c):
+        return c
+    h, w = fsize(c, fid)
+    v = dict(c)
+    v["H"], v["W"] = h, w
+    return v
+
+
 def config_ok(H, W, mh, mw, scales):
     g = sizematch(H, W, mh, mw)
     if g["resized"]:
@@ -132,26 +163,66 @@ def gen_sizes(rng):
         return H, W, mh, mw, v
 
 
-def gen_single(rng, idx, band=False):
-    for _ in range(200):
-        H, W, mh, mw, variant = gen_sizes(rng)
+def gen_mixed_sizes(rng, min_side=32):
+    """(max_height, max_width) and 2-3 videos of DIFFERENT frame sizes (smaller, larger, other aspect ratio,
+    equal to the maximum, exact multiples); the first two have eff_scales that differ by >= 15 %."""
+    for _ in range(2000):
+        mh, mw = rng.randint(max(40, min_side), 176), rng.randint(max(40, min_side), 176)
+        n = rng.choice([2, 2, 3])
+        sizes = []
+        for _ in range(n):
+            v = rng.choice(["equal", "any", "any", "any", "scaled"])
+            if v == "equal":
+                H, W = mh, mw
+            elif v == "scaled":
+                k = rng.choice([F(1, 2), F(2, 3), F(3, 2), F(2)])
+                H, W = int(mh * k), int(mw * k)
+            else:
+                H = rng.randint(min_side, 160)
+                W = rng.randint(max(min_side, H // 2), min(160, 2 * H))
+            sizes.append((H, W))
+        if any(not (min_side <= h <= 200 and min_side <= w <= 200) for h, w in sizes) or len(set(sizes)) != n:
+            continue
+        effs = [sizematch(h, w, mh, mw)["eff"] for h, w in sizes]
+        if abs(effs[0] / effs[1] - 1) < F(15, 100):
+            continue
+        return mh, mw, sizes
+    raise RuntimeError("generator could not choose mixed video sizes")
+
+
+def frame_videos(rng, n_frames, n_videos):
+    """video of each frame: frames 0 and 1 (always in one batch: batch size >= 2) come from the two videos
+    whose eff_scales differ; the rest at random"""
+    return [0, 1][:n_frames] + [rng.randrange(n_videos) for _ in range(max(0, n_frames - 2))]
+
+
+def gen_single(rng, idx, band=False, mixed=False):
+    for _ in range(300):
+        if mixed:
+            mh, mw, sizes = gen_mixed_sizes(rng)
+            variant = "mixed"
+            H, W = sizes[0]
+        else:
+            H, W, mh, mw, variant = gen_sizes(rng)
+            sizes = [(H, W)]
         scale = rng.choice([F(1, 2), F(3, 4), F(1)])
         ms = rng.choice([1, 8, 16])
         os_ = 4 if band else rng.choice([1, 2, 4])
         if band:
             ms = 1
-        if not config_ok(H, W, mh, mw, [scale]):
+        if not all(config_ok(h, w, mh, mw, [scale]) for h, w in sizes):
             continue
         refinement = None if band else rng.choice([None, None, "integral"])
-        n_frames = rng.randint(1, 5)
+        n_frames = rng.randint(2, 5) if mixed else rng.randint(1, 5)
         n_nodes = rng.randint(1, 4)
-        g = sizematch(H, W, mh, mw)
-        geoms = []
-        for pre in (True, False):
-            geoms.append((si_axis(pre, W, g["w"], g["tw"], g["resized"], scale, ms),
-                          si_axis(pre, H, g["h"], g["th"], g["resized"], scale, ms)))
+        vid = frame_videos(rng, n_frames, len(sizes)) if mixed else [0] * n_frames
+        geoms_of = []
+        for (h, w) in sizes:
+            g = sizematch(h, w, mh, mw)
+            geoms_of.append([(si_axis(pre, w, g["w"], g["tw"], g["resized"], scale, ms),
+                              si_axis(pre, h, g["h"], g["th"], g["resized"], scale, ms)) for pre in (True, False)])
 
-        def coord(axis, n_orig):
+        def coord(axis, n_orig, geoms):
             for _ in range(400):
                 if band:
                     x = F(rng.randrange(8 * (n_orig - 3), 8 * (n_orig - 1) + 1), 8)
@@ -178,34 +249,43 @@ def gen_single(rng, idx, band=False):
         frames = []
         good = True
         for f in range(n_frames):
-            if rng.random() < 0.08 and not band:
+            h, w = sizes[vid[f]]
+            geoms = geoms_of[vid[f]]
+            must = mixed and f < 2                   # the two frames that share a batch and differ in eff_scale
+            if rng.random() < 0.08 and not band and not must:
                 frames.append([])                      # a frame with nothing in it
                 continue
             kps = []
             for _ in range(n_nodes):
-                if rng.random() < 0.25 and not band:
+                if rng.random() < 0.25 and not band and not (must and not kps):
                     kps.append(None)
                     continue
-                x, y = coord(0, W), coord(1, H)
+                x, y = coord(0, w, geoms), coord(1, h, geoms)
                 if x is None or y is None:
                     good = False
                     break
                 kps.append((x, y))
             if not good:
                 break
-            frames.append([{"kps": kps, "cent": (F(W, 2), F(H, 2))}])
+            frames.append([{"kps": kps, "cent": (F(w, 2), F(h, 2))}])
         if not good:
             continue
-        return {"kind": "single", "idx": idx, "H": H, "W": W, "mh": mh, "mw": mw, "variant": variant,
-                "scale": scale, "ms": ms, "os": os_, "refinement": refinement, "batch": rng.randint(1, 4),
-                "n_nodes": n_nodes, "frames": frames, "band": band, "n_videos": rng.choice([1, 1, 2])}
+        c = {"kind": "single", "idx": idx, "H": H, "W": W, "mh": mh, "mw": mw, "variant": variant,
+             "scale": scale, "ms": ms, "os": os_, "refinement": refinement,
+             "batch": rng.randint(2, 4) if mixed else rng.randint(1, 4),
+             "n_nodes": n_nodes, "frames": frames, "band": band, "n_videos": rng.choice([1, 1, 2])}
+        if mixed:
+            c["sizes"], c["vid"], c["n_videos"] = [list(x) for x in sizes], vid, len(sizes)
+        return c
     raise RuntimeError("generator could not place a single-instance case")
 
 
 def td_geom(c):
+    """geometry of ONE frame size (c["H"], c["W"]): pass fview(case, fid) for cases with several video sizes"""
     g = sizematch(c["H"], c["W"], c["mh"], c["mw"])
+    ch, cw = crop_hw(c)
     out = {"eff": g["eff"]}
-    for ax, n0, nm, nt, crop in (("x", c["W"], g["w"], g["tw"], c["crop"]), ("y", c["H"], g["h"], g["th"], c["crop"])):
+    for ax, n0, nm, nt, crop in (("x", c["W"], g["w"], g["tw"], cw), ("y", c["H"], g["h"], g["th"], ch)):
         a0 = resize_map(n0, nt) if g["resized"] else (F(1), F(0))
         out["c" + ax] = (then(a0, resize_map(nm, rdim(nm, c["scale_c"]))), pad(rdim(nm, c["scale_c"]), c["ms_c"]))
         out["p" + ax] = then(a0, resize_map(nm, rdim(nm, c["scale_i"])))
@@ -214,89 +294,119 @@ def td_geom(c):
     return out
 
 
-def gen_topdown(rng, idx):
-    for _ in range(300):
-        H, W, mh, mw, variant = gen_sizes(rng)
-        if min(H, W) < 48:
+CROPS = [32, 48, 64, [32, 48], [48, 32], [32, 64], [64, 32], [48, 64], [64, 48]]      # int = square, else [height, width]
+
+
+def td_place_params(fc):
+    """Placement parameters of a top-down configuration for ONE frame size; None when the crop leaves no room."""
+    g = td_geom(fc)
+    eff = g["eff"]
+    k = fc["scale_i"] * eff
+    osc, osi = fc["os_c"], fc["os_i"]
+    ch, cw = crop_hw(fc)
+    quant = F(osc, 1) / fc["scale_c"] * fc["scale_i"]          # centroid quantisation in crop pixels (one cell)
+    reach_px = [F(n, 2) - quant - 2 * osi - 3 for n in (cw, ch)]   # crop pixels available around the centre, per axis
+    if fc["refinement"]:
+        reach_px = [r - 2 * osi for r in reach_px]
+    if min(reach_px) < 3:
+        return None
+    return {"g": g, "eff": eff, "reach": [r / k for r in reach_px],            # original pixels, (x, y)
+            "sep": 4 * osc / (fc["scale_c"] * eff) + 2}                        # >= 4 centroid cells apart (Chebyshev)
+
+
+def gen_td_animals(rng, fc, pp, n_an):
+    """`n_an` animals (fewer when they cannot be placed) of one frame of size (fc["H"], fc["W"])."""
+    H, W = fc["H"], fc["W"]
+    g, eff, reach, sep = pp["g"], pp["eff"], pp["reach"], pp["sep"]
+    osc, osi = fc["os_c"], fc["os_i"]
+    ch, cw = crop_hw(fc)
+    animals = []
+    for _ in range(n_an):
+        placed = None
+        for _ in range(200):
+            border = 3 + (3 * osc / (fc["scale_c"] * eff) if fc["refinement"] else 0)
+            lo_x, hi_x = math.ceil(border), math.floor(W - 1 - border)
+            lo_y, hi_y = math.ceil(border), math.floor(H - 1 - border)
+            if lo_x >= hi_x or lo_y >= hi_y:
+                break
+            cx = F(rng.randrange(8 * lo_x, 8 * hi_x + 1), 8)
+            cy = F(rng.randrange(8 * lo_y, 8 * hi_y + 1), 8)
+            ux, uy = app(g["cx"][0], cx), app(g["cy"][0], cy)
+            if tie_margin(ux, osc) < MU or tie_margin(uy, osc) < MU:
+                continue
+            if ux / osc > ncells(g["cx"][1], osc) - 1 + F(1, 2) or uy / osc > ncells(g["cy"][1], osc) - 1 + F(1, 2):
+                continue
+            if any(max(abs(cx - a["cent"][0]), abs(cy - a["cent"][1])) < sep for a in animals):
+                continue
+            placed = (cx, cy)
+            break
+        if placed is None:
+            continue
+        cx, cy = placed
+        # crop corner the code will use when refinement is off
+        cellx = nearest(app(g["cx"][0], cx), osc, ncells(g["cx"][1], osc))
+        celly = nearest(app(g["cy"][0], cy), osc, ncells(g["cy"][1], osc))
+        tlx = cellx * osc / fc["scale_c"] * fc["scale_i"] - F(cw, 2) + F(1, 2)
+        tly = celly * osc / fc["scale_c"] * fc["scale_i"] - F(ch, 2) + F(1, 2)
+        kps = []
+        for _ in range(fc["n_nodes"]):
+            if rng.random() < 0.25:
+                kps.append(None)
+                continue
+            pt = None
+            for _ in range(300):
+                rx, ry = min(reach[0], F(40)), min(reach[1], F(40))
+                x = cx + F(rng.randrange(-int(8 * rx), int(8 * rx) + 1), 8)
+                y = cy + F(rng.randrange(-int(8 * ry), int(8 * ry) + 1), 8)
+                if not (2 <= x <= W - 3 and 2 <= y <= H - 3):
+                    continue
+                vx, vy = app(g["px"], x) - tlx, app(g["py"], y) - tly
+                if fc["refinement"] is None and (tie_margin(vx, osi) < MU or tie_margin(vy, osi) < MU):
+                    continue
+                lo = 2 * osi if fc["refinement"] else 1
+                if not (lo <= vx <= cw - 1 - lo - osi and lo <= vy <= ch - 1 - lo - osi):
+                    continue
+                pt = (x, y)
+                break
+            kps.append(pt)
+        animals.append({"kps": kps, "cent": (cx, cy)})
+    return animals
+
+
+def gen_topdown(rng, idx, mixed=False):
+    for _ in range(400):
+        if mixed:
+            mh, mw, sizes = gen_mixed_sizes(rng, 48)
+            variant = "mixed"
+            H, W = sizes[0]
+        else:
+            H, W, mh, mw, variant = gen_sizes(rng)
+            sizes = [(H, W)]
+        if min(min(x) for x in sizes) < 48:
             continue
         c = {"kind": "topdown", "idx": idx, "H": H, "W": W, "mh": mh, "mw": mw, "variant": variant,
              "scale_c": rng.choice([F(1, 2), F(3, 4), F(1)]), "scale_i": rng.choice([F(1, 2), F(3, 4), F(1)]),
              "ms_c": rng.choice([1, 8, 16]), "ms_i": rng.choice([1, 8, 16]),
-             "os_c": rng.choice([1, 2, 4]), "os_i": rng.choice([1, 2, 4]), "crop": rng.choice([32, 48, 64]),
-             "refinement": rng.choice([None, None, "integral"]), "batch": rng.randint(1, 4),
+             "os_c": rng.choice([1, 2, 4]), "os_i": rng.choice([1, 2, 4]), "crop": rng.choice(CROPS),
+             "refinement": rng.choice([None, None, "integral"]),
+             "batch": rng.randint(2, 4) if mixed else rng.randint(1, 4),
              "n_nodes": rng.randint(1, 4), "band": False, "n_videos": rng.choice([1, 1, 2])}
-        if not config_ok(H, W, mh, mw, [c["scale_c"], c["scale_i"]]):
+        if not all(config_ok(h, w, mh, mw, [c["scale_c"], c["scale_i"]]) for h, w in sizes):
             continue
-        g = td_geom(c)
-        eff = g["eff"]
-        # half extent of the crop in original pixels, minus a safety border
-        k = c["scale_i"] * eff
-        osc, osi = c["os_c"], c["os_i"]
-        quant = F(osc, 1) / c["scale_c"] * c["scale_i"]        # centroid quantisation in crop pixels (one cell)
-        reach_px = F(c["crop"], 2) - quant - 2 * osi - 3        # crop pixels available around the centre
-        if c["refinement"]:
-            reach_px -= 2 * osi
-        if reach_px < 3:
+        n_frames = rng.randint(2, 5) if mixed else rng.randint(1, 5)
+        if mixed:
+            c["sizes"], c["vid"], c["n_videos"] = [list(x) for x in sizes], frame_videos(rng, n_frames, len(sizes)), len(sizes)
+        pps = [td_place_params(dict(c, H=h, W=w)) for h, w in sizes]
+        if any(pp is None for pp in pps):
             continue
-        reach = reach_px / k                                    # original pixels
-        sep = 4 * osc / (c["scale_c"] * eff) + 2                # >= 4 centroid cells apart (Chebyshev)
-        n_frames = rng.randint(1, 5)
         frames = []
-        ok_case = True
         for f in range(n_frames):
+            v = c["vid"][f] if mixed else 0
             n_an = rng.choice([0, 1, 1, 2, 2, 3, 4])
-            animals = []
-            for _ in range(n_an):
-                placed = None
-                for _ in range(200):
-                    border = 3 + (3 * osc / (c["scale_c"] * eff) if c["refinement"] else 0)
-                    lo_x, hi_x = math.ceil(border), math.floor(W - 1 - border)
-                    lo_y, hi_y = math.ceil(border), math.floor(H - 1 - border)
-                    if lo_x >= hi_x or lo_y >= hi_y:
-                        break
-                    cx = F(rng.randrange(8 * lo_x, 8 * hi_x + 1), 8)
-                    cy = F(rng.randrange(8 * lo_y, 8 * hi_y + 1), 8)
-                    ux, uy = app(g["cx"][0], cx), app(g["cy"][0], cy)
-                    if tie_margin(ux, osc) < MU or tie_margin(uy, osc) < MU:
-                        continue
-                    if ux / osc > ncells(g["cx"][1], osc) - 1 + F(1, 2) or uy / osc > ncells(g["cy"][1], osc) - 1 + F(1, 2):
-                        continue
-                    if any(max(abs(cx - a["cent"][0]), abs(cy - a["cent"][1])) < sep for a in animals):
-                        continue
-                    placed = (cx, cy)
-                    break
-                if placed is None:
-                    continue
-                cx, cy = placed
-                # crop corner the code will use when refinement is off
-                cellx = nearest(app(g["cx"][0], cx), osc, ncells(g["cx"][1], osc))
-                celly = nearest(app(g["cy"][0], cy), osc, ncells(g["cy"][1], osc))
-                tlx = cellx * osc / c["scale_c"] * c["scale_i"] - F(c["crop"], 2) + F(1, 2)
-                tly = celly * osc / c["scale_c"] * c["scale_i"] - F(c["crop"], 2) + F(1, 2)
-                kps = []
-                for _ in range(c["n_nodes"]):
-                    if rng.random() < 0.25:
-                        kps.append(None)
-                        continue
-                    pt = None
-                    for _ in range(300):
-                        r = min(reach, F(40))
-                        x = cx + F(rng.randrange(-int(8 * r), int(8 * r) + 1), 8)
-                        y = cy + F(rng.randrange(-int(8 * r), int(8 * r) + 1), 8)
-                        if not (2 <= x <= W - 3 and 2 <= y <= H - 3):
-                            continue
-                        vx, vy = app(g["px"], x) - tlx, app(g["py"], y) - tly
-                        if c["refinement"] is None and (tie_margin(vx, osi) < MU or tie_margin(vy, osi) < MU):
-                            continue
-                        lo = 2 * osi if c["refinement"] else 1
-                        if not (lo <= vx <= c["crop"] - 1 - lo - osi and lo <= vy <= c["crop"] - 1 - lo - osi):
-                            continue
-                        pt = (x, y)
-                        break
-                    kps.append(pt)
-                animals.append({"kps": kps, "cent": (cx, cy)})
-            frames.append(animals)
-        if not ok_case or sum(len(a) for a in frames) == 0:
+            if mixed and f < 2:
+                n_an = max(1, n_an)
+            frames.append(gen_td_animals(rng, dict(c, H=sizes[v][0], W=sizes[v][1]), pps[v], n_an))
+        if sum(len(a) for a in frames) == 0 or (mixed and (not frames[0] or not frames[1])):
             continue
         c["frames"] = frames
         return c
@@ -309,65 +419,87 @@ def bbox_mid(kps):
     return ((min(xs) + max(xs)) / 2, (min(ys) + max(ys)) / 2)
 
 
-def gen_topdown_gt(rng, idx):
+def gen_gt_animals(rng, fc, n_an):
+    """Animals of one frame (size fc["H"], fc["W"]) for the ground-truth-centroid leg, one per image quadrant;
+    None when the configuration leaves no room."""
+    H, W = fc["H"], fc["W"]
+    g = td_geom(fc)
+    sm = sizematch(H, W, fc["mh"], fc["mw"])
+    eff, si, osi = g["eff"], fc["scale_i"], fc["os_i"]
+    ch, cw = crop_hw(fc)
+    a0 = {"x": resize_map(W, sm["tw"]) if sm["resized"] else (F(1), F(0)),
+          "y": resize_map(H, sm["th"]) if sm["resized"] else (F(1), F(0))}
+    # keypoints must stay inside the crop both as pinned (crop cut from the un-resized image) and repaired
+    reach = [(F(n, 2) - 2 * osi - 3) / eff for n in (cw, ch)]
+    if min(reach) < 3:
+        return None
+    quads = [(i, j) for i in range(2) for j in range(2)]
+    animals = []
+    for (qi, qj) in rng.sample(quads, n_an):
+        for _ in range(300):
+            rx = min(reach[0], F(W, 4) - 3, F(30))
+            ry = min(reach[1], F(H, 4) - 3, F(30))
+            if rx < 2 or ry < 2:
+                break
+            cx = F(rng.randrange(8 * int(qj * W // 2 + rx + 2), 8 * int((qj + 1) * W // 2 - rx - 2) + 1), 8)
+            cy = F(rng.randrange(8 * int(qi * H // 2 + ry + 2), 8 * int((qi + 1) * H // 2 - ry - 2) + 1), 8)
+            kps = [None if rng.random() < 0.2 else
+                   (cx + F(rng.randrange(-int(8 * rx), int(8 * rx) + 1), 8), cy + F(rng.randrange(-int(8 * ry), int(8 * ry) + 1), 8))
+                   for _ in range(fc["n_nodes"])]
+            if all(p is None for p in kps):
+                continue
+            mid = bbox_mid(kps)
+            ok = True
+            for fixed in (False, True):
+                for ax, n_crop in ((0, cw), (1, ch)):
+                    key = "xy"[ax]
+                    amap = g["p" + key] if fixed else a0[key]
+                    tl = (mid[ax] * eff * si if fixed else mid[ax] * eff) - F(n_crop, 2) + F(1, 2)
+                    for p in kps:
+                        if p is None:
+                            continue
+                        v = app(amap, p[ax]) - tl
+                        if tie_margin(v, osi) < MU or not (1 <= v <= n_crop - 2 - osi):
+                            ok = False
+            if ok:
+                animals.append({"kps": kps, "cent": mid})
+                break
+    return animals
+
+
+def gen_topdown_gt(rng, idx, mixed=False):
     """Top-down with ground-truth centroids (centroid model = None; LabelsReader only)."""
-    for _ in range(300):
-        H, W, mh, mw, variant = gen_sizes(rng)
-        if min(H, W) < 64:
+    for _ in range(400):
+        if mixed:
+            mh, mw, sizes = gen_mixed_sizes(rng, 64)
+            variant = "mixed"
+            H, W = sizes[0]
+        else:
+            H, W, mh, mw, variant = gen_sizes(rng)
+            sizes = [(H, W)]
+        if min(min(x) for x in sizes) < 64:
             continue
         c = {"kind": "topdown_gt", "idx": idx, "H": H, "W": W, "mh": mh, "mw": mw, "variant": variant,
              "scale_c": F(1), "scale_i": rng.choice([F(1, 2), F(3, 4), F(1), F(1)]), "ms_c": 1,
-             "ms_i": rng.choice([1, 8, 16]), "os_c": 1, "os_i": rng.choice([1, 2, 4]), "crop": rng.choice([32, 48, 64]),
-             "refinement": None, "batch": rng.randint(1, 3), "n_nodes": rng.randint(1, 4), "band": False,
-             "n_videos": rng.choice([1, 2])}
-        if not config_ok(H, W, mh, mw, [c["scale_i"]]):
+             "ms_i": rng.choice([1, 8, 16]), "os_c": 1, "os_i": rng.choice([1, 2, 4]), "crop": rng.choice(CROPS),
+             "refinement": None, "batch": rng.randint(2, 3) if mixed else rng.randint(1, 3),
+             "n_nodes": rng.randint(1, 4), "band": False, "n_videos": rng.choice([1, 2])}
+        if not all(config_ok(h, w, mh, mw, [c["scale_i"]]) for h, w in sizes):
             continue
-        g = td_geom(c)
-        sm = sizematch(H, W, mh, mw)
-        eff, si, osi = g["eff"], c["scale_i"], c["os_i"]
-        a0 = {"x": resize_map(W, sm["tw"]) if sm["resized"] else (F(1), F(0)),
-              "y": resize_map(H, sm["th"]) if sm["resized"] else (F(1), F(0))}
-        # keypoints must stay inside the crop both as pinned (crop cut from the un-resized image) and repaired
-        reach = (F(c["crop"], 2) - 2 * osi - 3) / eff
-        if reach < 3:
-            continue
-        quads = [(i, j) for i in range(2) for j in range(2)]
+        n_frames = rng.randint(2, 4) if mixed else rng.randint(1, 4)
+        if mixed:
+            c["sizes"], c["vid"], c["n_videos"] = [list(x) for x in sizes], frame_videos(rng, n_frames, len(sizes)), len(sizes)
         frames = []
-        for f in range(rng.randint(1, 4)):
-            animals = []
-            for (qi, qj) in rng.sample(quads, rng.randint(1, 3)):
-                for _ in range(300):
-                    r = min(reach, F(W, 4) - 3, F(H, 4) - 3, F(30))
-                    if r < 2:
-                        break
-                    cx = F(rng.randrange(8 * int(qj * W // 2 + r + 2), 8 * int((qj + 1) * W // 2 - r - 2) + 1), 8)
-                    cy = F(rng.randrange(8 * int(qi * H // 2 + r + 2), 8 * int((qi + 1) * H // 2 - r - 2) + 1), 8)
-                    kps = [None if rng.random() < 0.2 else
-                           (cx + F(rng.randrange(-int(8 * r), int(8 * r) + 1), 8), cy + F(rng.randrange(-int(8 * r), int(8 * r) + 1), 8))
-                           for _ in range(c["n_nodes"])]
-                    if all(p is None for p in kps):
-                        continue
-                    mid = bbox_mid(kps)
-                    ok = True
-                    for fixed in (False, True):
-                        for ax, n_img in ((0, W), (1, H)):
-                            key = "xy"[ax]
-                            amap = g["p" + key] if fixed else a0[key]
-                            tl = (mid[ax] * eff * si if fixed else mid[ax] * eff) - F(c["crop"], 2) + F(1, 2)
-                            for p in kps:
-                                if p is None:
-                                    continue
-                                v = app(amap, p[ax]) - tl
-                                if tie_margin(v, osi) < MU or not (1 <= v <= c["crop"] - 2 - osi):
-                                    ok = False
-                    if ok:
-                        animals.append({"kps": kps, "cent": mid})
-                        break
+        for f in range(n_frames):
+            v = c["vid"][f] if mixed else 0
+            animals = gen_gt_animals(rng, dict(c, H=sizes[v][0], W=sizes[v][1]), rng.randint(1, 3))
             if not animals:
                 break
             frames.append(animals)
-        if len(frames) == 0 or any(not a for a in frames):
+        if len(frames) < (2 if mixed else 1):
             continue
+        if mixed:
+            c["vid"] = c["vid"][:len(frames)]
         c["frames"] = frames
         return c
     raise RuntimeError("generator could not place a ground-truth-centroid case")
@@ -421,7 +553,34 @@ def td_cfg_term(c):
             "td_msi := %s; td_osc := %s; td_osi := %s; td_ch := %s; td_cw := %s; td_sigma := %s; td_lthr := %s |}" % (
                 core.cz(c["H"]), core.cz(c["W"]), coz(c["mh"]), coz(c["mw"]), core.cq(c["scale_c"]),
                 core.cq(c["scale_i"]), core.cz(c["ms_c"]), core.cz(c["ms_i"]), core.cz(c["os_c"]),
-                core.cz(c["os_i"]), core.cz(c["crop"]), core.cz(c["crop"]), core.cq(SIGMA), core.cq(LN_THR)))
+                core.cz(c["os_i"]), core.cz(crop_hw(c)[0]), core.cz(crop_hw(c)[1]), core.cq(SIGMA), core.cq(LN_THR)))
+
+
+def batches_of(c, prov):
+    """The batches _predict_generator assembles: chunks of `batch` frames in reading order.  LabelsReader reads all
+    the frames of the labels file (the batches MIX the video sizes); the VideoReader leg reads every video on its own."""
+    fids = list(range(len(c["frames"])))
+    if prov == "VideoReader" and is_mixed(c):
+        streams = [[f for f in fids if c["vid"][f] == v] for v in sorted(set(c["vid"]))]
+    else:
+        streams = [fids]
+    return [st[i:i + c["batch"]] for st in streams for i in range(0, len(st), c["batch"])]
+
+
+def sframe_term(c, fid, kps):
+    h, w = fsize(c, fid)
+    return "{| sf_H := %s; sf_W := %s; sf_kps := %s |}" % (core.cz(h), core.cz(w), core.clist(kps, ckp))
+
+
+def tframe_term(c, fid, animals):
+    h, w = fsize(c, fid)
+    return "{| tf_H := %s; tf_W := %s; tf_animals := %s |}" % (core.cz(h), core.cz(w), core.clist(animals, animal_term))
+
+
+def gframe_term(c, fid, animals):
+    h, w = fsize(c, fid)
+    return "{| gf_H := %s; gf_W := %s; gf_insts := %s |}" % (
+        core.cz(h), core.cz(w), core.clist([a["kps"] for a in animals], lambda k: core.clist(k, ckp)))
 
 
 def animal_term(a):
@@ -433,45 +592,67 @@ def animal_term(a):
 def build_scene(c):
     sc = S.Scene(c["n_nodes"])
     for f, animals in enumerate(c["frames"]):
-        sc.add(f, c["H"], c["W"], animals)
+        h, w = fsize(c, f)
+        sc.add(f, h, w, animals)
     return sc
 
 
-def run_impl(c, mods, provider):
-    """One case through the real predictor with one provider."""
-    sc = build_scene(c)
-    fids = list(range(len(c["frames"])))
-    video, labels, where = S.make_sources(sc, fids, c.get("n_videos", 1) if provider == "LabelsReader" else 1)
+def build_predictor(c, mods, sc):
     if c["kind"] == "single":
         cfg = dict(os=c["os"], scale=float(c["scale"]), max_stride=c["ms"], max_h=c["mh"], max_w=c["mw"],
                    batch=c["batch"], refinement=c["refinement"])
         pred, stub = S.build_single_predictor(mods, sc, cfg)
-        stubs = {"single": stub}
-    elif c["kind"] == "topdown_gt":
+        return pred, {"single": stub}
+    if c["kind"] == "topdown_gt":
         cfg = dict(os_i=c["os_i"], scale_i=float(c["scale_i"]), ms_i=c["ms_i"], max_h=c["mh"], max_w=c["mw"],
                    crop=c["crop"], batch=c["batch"], refinement=c["refinement"])
         pred, si_ = S.build_topdown_gt_predictor(mods, sc, cfg)
-        stubs = {"centroid": type("E", (), {"log": []})(), "instance": si_}
-    else:
-        cfg = dict(os_c=c["os_c"], os_i=c["os_i"], scale_c=float(c["scale_c"]), scale_i=float(c["scale_i"]),
-                   ms_c=c["ms_c"], ms_i=c["ms_i"], max_h=c["mh"], max_w=c["mw"], crop=c["crop"], batch=c["batch"],
-                   refinement=c["refinement"], max_instances=None)
-        pred, sc_, si_ = S.build_topdown_predictor(mods, sc, cfg)
-        stubs = {"centroid": sc_, "instance": si_}
-    frames, raw, flags = S.run_predictor(pred, provider, video, labels)
-    # map (video_idx, frame_idx) back to the frame id
+        return pred, {"centroid": type("E", (), {"log": []})(), "instance": si_}
+    cfg = dict(os_c=c["os_c"], os_i=c["os_i"], scale_c=float(c["scale_c"]), scale_i=float(c["scale_i"]),
+               ms_c=c["ms_c"], ms_i=c["ms_i"], max_h=c["mh"], max_w=c["mw"], crop=c["crop"], batch=c["batch"],
+               refinement=c["refinement"], max_instances=None)
+    pred, sc_, si_ = S.build_topdown_predictor(mods, sc, cfg)
+    return pred, {"centroid": sc_, "instance": si_}
+
+
+def run_impl(c, mods, provider):
+    """One case through the real predictor with one provider.  A labels file holds all the frames (several
+    videos, of different frame sizes when the case has `sizes`: batches then MIX the sizes); a video holds
+    frames of one size, so with `sizes` the VideoReader leg reads each video of the labels file in its own run."""
+    sc = build_scene(c)
+    fids = list(range(len(c["frames"])))
+    mixed = is_mixed(c)
     if provider == "LabelsReader":
-        back = {w: f for f, w in zip(fids, where)}
+        video, labels, where = S.make_sources(sc, fids, c.get("n_videos", 1), c["vid"] if mixed else None)
+        groups = [(None, labels, {w: f for f, w in zip(fids, where)})]
+    elif not mixed:
+        video, labels, where = S.make_sources(sc, fids, 1)
+        groups = [(video, None, {(0, f): f for f in fids})]
     else:
-        back = {(0, f): f for f in fids}
-    per_frame = {}
-    order = []
-    for vi, fi, insts in frames:
-        fid = back.get((vi, fi))
-        order.append(fid)
-        per_frame.setdefault(fid, []).extend(insts)
-    return {"per_frame": per_frame, "order": order, "raw": raw, "flags": flags,
-            "logs": {k: v.log for k, v in stubs.items()}}
+        groups = []
+        for v in sorted(set(c["vid"])):
+            sub = [f for f in fids if c["vid"][f] == v]
+            video, _, _ = S.make_sources(sc, sub, 1)
+            groups.append((video, None, {(0, k): f for k, f in enumerate(sub)}))
+    per_frame, order, raws, flags = {}, [], [], None
+    logs = {}
+    for video, labels, back in groups:
+        pred, stubs = build_predictor(c, mods, sc)
+        frames, raw, flags = S.run_predictor(pred, provider, video, labels)
+        for ex in raw:                                  # which frame every entry of the raw dictionary belongs to
+            vi, fi = ex.get("video_idx"), ex.get("frame_idx")
+            if vi is not None and fi is not None:
+                import numpy as np
+                ex["_fids"] = [back.get((int(a), int(b))) for a, b in zip(np.asarray(vi).ravel().tolist(),
+                                                                         np.asarray(fi).ravel().tolist())]
+        raws += raw
+        for vi, fi, insts in frames:
+            fid = back.get((vi, fi))
+            order.append(fid)
+            per_frame.setdefault(fid, []).extend(insts)
+        for k, v in stubs.items():
+            logs.setdefault(k, []).extend(v.log)
+    return {"per_frame": per_frame, "order": order, "raw": raws, "flags": flags, "logs": logs}
 
 
 # ------------------------------------------------------------------ the property, executable
@@ -540,7 +721,10 @@ def match_instances(preds, animals):
     return {int(j): int(i) for j, i in zip(rows, cols)}
 
 
-def eff_of(c):
+def eff_of(c, fid=None):
+    """eff_scale of a frame of the case (its OWN size: pass the frame id for cases with several video sizes)"""
+    if fid is not None:
+        c = fview(c, fid)
     mh = c["H"] if c["mh"] is None else c["mh"]
     mw = c["W"] if c["mw"] is None else c["mw"]
     return 1.0 if (mh == c["H"] and mw == c["W"]) else min(mh / c["H"], mw / c["W"])
@@ -549,15 +733,15 @@ def eff_of(c):
 def oracle_case(c, res, provider, fixed_f8, fixed_f7=False):
     """The property on one provider's output.  Returns list of (reason, selector, where)."""
     fails = []
-    eff = eff_of(c)
     single = c["kind"] == "single"
     s = float(c["scale"] if single else c["scale_i"])
     os_ = c["os"] if single else c["os_i"]
-    half = os_ / (2 * s * eff)
     f8 = single and provider == "LabelsReader" and c["scale"] != 1 and not fixed_f8
     f7 = c["kind"] == "topdown_gt" and c["scale_i"] != 1 and not fixed_f7
     logs = res["logs"]["single" if single else "instance"]
     for fid, animals in enumerate(c["frames"]):
+        eff = eff_of(c, fid)                      # the frame's own size-matching scale
+        half = os_ / (2 * s * eff)                # half an output-stride cell in ORIGINAL pixels of this frame
         preds = res["per_frame"].get(fid, [])
         vis_animals = [a for a in animals if any(p is not None for p in a["kps"])]
         if single:
@@ -726,10 +910,11 @@ def attach_tls(c, res):
     in pre-crop image pixels) to the instance-stage stub logs."""
     if c["kind"] not in ("topdown", "topdown_gt") or "error" in res:
         return
-    k = float(c["scale_i"]) * eff_of(c)
     tls = []
     for ex in res["raw"]:
-        for bb in ex["instance_bbox"]:
+        for n, bb in enumerate(ex["instance_bbox"]):
+            fid = ex["_fids"][n] if n < len(ex.get("_fids", [])) else None
+            k = float(c["scale_i"]) * (eff_of(c, fid) if fid is not None else eff_of(c))
             tls.append((float(bb[0][0][0]) * k, float(bb[0][0][1]) * k))
     recs = res["logs"]["instance"]
     if len(recs) == len(tls):
@@ -761,24 +946,45 @@ def evaluate(run, cases, mods, fixed_f8, fixed_f7=False):
         for prov, res in r.items():
             attach_tls(c, res)
 
-    # ---- model terms
+    # ---- model terms.  Cases with several video sizes go through the BATCH model (MixedBatch.run_batch: the
+    # eff_scale list travels next to the frame list, one term per batch actually assembled); the others through
+    # the per-frame model (Decode.run).
     terms, index = [], []
+    bterms, bindex = [], []
     for ci, (c, r) in enumerate(zip(cases, results)):
+        if is_mixed(c) and c["kind"] == "single":
+            for prov in ("VideoReader", "LabelsReader"):
+                for fb in batches_of(c, prov):
+                    fr = [sframe_term(c, f, c["frames"][f][0]["kps"] if c["frames"][f] else [None] * c["n_nodes"]) for f in fb]
+                    bterms.append(f"BSingle {si_cfg_term(c, fixed_f8)} {prov} [{'; '.join(fr)}]")
+                    bindex.append([(ci, prov, f, "single") for f in fb])
+        elif is_mixed(c) and c["kind"] == "topdown_gt":
+            for fb in batches_of(c, "LabelsReader"):
+                bterms.append(f"BTopDownGT {core.cbool(fixed_f7)} {td_cfg_term(c)} "
+                              f"[{'; '.join(gframe_term(c, f, c['frames'][f]) for f in fb)}]")
+                bindex.append([(ci, "LabelsReader", f, "gt") for f in fb])
+        elif is_mixed(c) and c["kind"] == "topdown":
+            for fb in batches_of(c, "LabelsReader"):
+                bterms.append(f"BTopDown {td_cfg_term(c)} [{'; '.join(tframe_term(c, f, c['frames'][f]) for f in fb)}]")
+                bindex.append([(ci, None, f, "topdown") for f in fb])
+        if is_mixed(c) and c["kind"] != "topdown":
+            continue
         if c["kind"] == "single":
             for prov in ("VideoReader", "LabelsReader"):
                 for fid, animals in enumerate(c["frames"]):
                     kps = animals[0]["kps"] if animals else [None] * c["n_nodes"]
-                    terms.append(f"CSingle {si_cfg_term(c, fixed_f8)} {prov} {core.clist(kps, ckp)}")
+                    terms.append(f"CSingle {si_cfg_term(fview(c, fid), fixed_f8)} {prov} {core.clist(kps, ckp)}")
                     index.append((ci, prov, fid, "single"))
         elif c["kind"] == "topdown_gt":
             for fid, animals in enumerate(c["frames"]):
-                terms.append(f"CTopDownGT {core.cbool(fixed_f7)} {td_cfg_term(c)} "
+                terms.append(f"CTopDownGT {core.cbool(fixed_f7)} {td_cfg_term(fview(c, fid))} "
                              f"{core.clist([a['kps'] for a in animals], lambda k: core.clist(k, ckp))}")
                 index.append((ci, "LabelsReader", fid, "gt"))
         else:
-            for fid, animals in enumerate(c["frames"]):
-                terms.append(f"CTopDown {td_cfg_term(c)} {core.clist(animals, animal_term)}")
-                index.append((ci, None, fid, "topdown"))
+            if not is_mixed(c):
+                for fid, animals in enumerate(c["frames"]):
+                    terms.append(f"CTopDown {td_cfg_term(fview(c, fid))} {core.clist(animals, animal_term)}")
+                    index.append((ci, None, fid, "topdown"))
             if c["refinement"]:
                 for prov, res in r.items():
                     if "error" in res or len(res.get("tls", [])) != len(res["logs"]["instance"]):
@@ -788,13 +994,21 @@ def evaluate(run, cases, mods, fixed_f8, fixed_f7=False):
                             continue
                         kps = c["frames"][rec["fid"]][rec["animal"]]["kps"]
                         tlq = (F(np.float32(tl[0]).item()), F(np.float32(tl[1]).item()))
-                        terms.append(f"CTopDownAt {td_cfg_term(c)} ({core.cq(tlq[0])}, {core.cq(tlq[1])}) "
+                        terms.append(f"CTopDownAt {td_cfg_term(fview(c, rec['fid']))} ({core.cq(tlq[0])}, {core.cq(tlq[1])}) "
                                      f"{core.clist(kps, ckp)}")
                         index.append((ci, prov, n, "at"))
     model = core.coq_eval_sharded(PREAMBLE, terms, "run", "rresult", shard=40, jobs=12)
+    bmodel = core.coq_eval_sharded(PREAMBLE_MB, bterms, "run_batch", "rbatch", shard=12, jobs=12) if bterms else []
     by_case = {}
     for ix, m in zip(index, model):
         by_case.setdefault(ix[0], []).append((ix, m))
+    batch_len_diffs = {}
+    for ixs, ms in zip(bindex, bmodel):
+        if len(ixs) != len(ms):
+            batch_len_diffs.setdefault(ixs[0][0], []).append(f"batch model returns {len(ms)} frames for a batch of {len(ixs)}")
+            continue
+        for ix, m in zip(ixs, ms):
+            by_case.setdefault(ix[0], []).append((ix, m))
 
     stats = {"skipped_low_margin": 0, "skipped_near_threshold": 0, "points_compared": 0}
     disagreements = 0
@@ -802,14 +1016,15 @@ def evaluate(run, cases, mods, fixed_f8, fixed_f7=False):
         single = c["kind"] == "single"
         nvis = sum(p is not None for fr in c["frames"] for a in fr for p in a["kps"])
         run.case(case_json(c), nontrivial=nvis >= 1)
-        diffs = []
+        diffs = list(batch_len_diffs.get(ci, []))
         fails = []
         errored = [p for p in r if "error" in r[p]]
         for p in errored:
             fails.append((f"{p}: implementation raised {r[p]['error']}", None, None))
-        eff = eff_of(c)
         for (ix, m) in by_case.get(ci, []):
             _, prov, fid, what = ix
+            eff = eff_of(c, fid) if what != "at" else None        # the frame's own eff_scale
+            fH, fW = fsize(c, fid) if what != "at" else (None, None)
             if what == "single":
                 res = r[prov]
                 if "error" in res:
@@ -826,8 +1041,8 @@ def evaluate(run, cases, mods, fixed_f8, fixed_f7=False):
                 stats["points_compared"] += len(mpts)
                 rec = next((x for x in res["logs"]["single"] if x["fid"] == fid), None)
                 if rec is not None and rec.get("ax"):
-                    cmp_affine(gx[0], gx[1], rec, "x", c["W"], where, diffs)
-                    cmp_affine(gy[0], gy[1], rec, "y", c["H"], where, diffs)
+                    cmp_affine(gx[0], gx[1], rec, "x", fW, where, diffs)
+                    cmp_affine(gy[0], gy[1], rec, "y", fH, where, diffs)
                 elif c["frames"][fid]:
                     diffs.append(f"{where}: the stub could not read the frame it was given")
                 if abs(q2f(meff) - eff) > 1e-9:
@@ -854,14 +1069,14 @@ def evaluate(run, cases, mods, fixed_f8, fixed_f7=False):
                     # centroid-stage network input and content map
                     for rec in res["logs"]["centroid"]:
                         if rec["fid"] == fid and rec.get("ax"):
-                            cmp_affine(cgx[0], cgx[1], rec, "x", c["W"], where + " centroid net", diffs)
-                            cmp_affine(cgy[0], cgy[1], rec, "y", c["H"], where + " centroid net", diffs)
+                            cmp_affine(cgx[0], cgx[1], rec, "x", fW, where + " centroid net", diffs)
+                            cmp_affine(cgy[0], cgy[1], rec, "y", fH, where + " centroid net", diffs)
                     for rec in res["logs"]["instance"]:
                         if rec["fid"] == fid and rec.get("ax") and "tl" in rec:
                             if rec["shape"] != (niy, nix):
                                 diffs.append(f"{where}: instance net input {rec['shape']} model {(niy, nix)}")
                             # content map of the pre-crop image: crop pixel + top-left
-                            for axis, pm, n0 in (("x", pmx, c["W"]), ("y", pmy, c["H"])):
+                            for axis, pm, n0 in (("x", pmx, fW), ("y", pmy, fH)):
                                 a, b = q2f(pm[0]), q2f(pm[1])
                                 fa, fb = (rec["ax"], rec["bx"]) if axis == "x" else (rec["ay"], rec["by"])
                                 tlv = rec["tl"][0 if axis == "x" else 1]
@@ -899,7 +1114,7 @@ def evaluate(run, cases, mods, fixed_f8, fixed_f7=False):
                 mpts, margins = m
                 rec = res["logs"]["instance"][fid]
                 preds = res["per_frame"].get(rec["fid"], [])
-                k = float(c["scale_i"]) * eff
+                k = float(c["scale_i"]) * eff_of(c, rec["fid"])
                 # find this crop's prediction: the n-th instance overall in generator order
                 flat = [i for f in sorted(set(res["order"]), key=res["order"].index) for i in res["per_frame"][f]]
                 if fid < len(flat):
@@ -992,16 +1207,20 @@ def check(run: core.Run) -> int:
         (co_cases if c["kind"] == "centroid_only" else cases).append(c)
     n_single, n_td, n_band = (420, 700, 80) if thorough else (60, 70, 10)
     n_gt = 200 if thorough else 20
+    # every stream: the first part with ONE frame size, the last part ("mixed") with a labels file of 2-3 videos of
+    # DIFFERENT frame sizes and max_height/max_width size matching, batch size >= 2, the first batch mixing the sizes
+    n_mix = {"single": 100, "topdown": 160, "gt": 60, "co": 60} if thorough else {"single": 14, "topdown": 18, "gt": 8, "co": 8}
     for i in range(n_single):
-        cases.append(gen_single(run.rng, len(cases)))
+        cases.append(gen_single(run.rng, len(cases), mixed=i >= n_single - n_mix["single"]))
     for i in range(n_band):
         cases.append(gen_single(run.rng, len(cases), band=True))
     for i in range(n_td):
-        cases.append(gen_topdown(run.rng, len(cases)))
+        cases.append(gen_topdown(run.rng, len(cases), mixed=i >= n_td - n_mix["topdown"]))
     for i in range(n_gt):
-        cases.append(gen_topdown_gt(run.rng, len(cases)))
-    for i in range(220 if thorough else 24):
-        co_cases.append(CO.gen_centroid_only(run.rng, len(cases) + len(co_cases)))
+        cases.append(gen_topdown_gt(run.rng, len(cases), mixed=i >= n_gt - n_mix["gt"]))
+    n_co = 220 if thorough else 24
+    for i in range(n_co):
+        co_cases.append(CO.gen_centroid_only(run.rng, len(cases) + len(co_cases), mixed=i >= n_co - n_mix["co"]))
     disagreements, stats, _ = evaluate(run, cases, mods, fixed_f8, fixed_f7)
     co_dis, co_stats = CO.evaluate(run, co_cases, mods, fixed_f61)
     stats.update(co_stats)
@@ -1017,7 +1236,9 @@ def check(run: core.Run) -> int:
                    "input), both providers", gr_dis == 0, f"{gr_dis} cases disagree")
     cases = cases + co_cases + gray_cases
     run.obligation("correspondence: Decode.run (Coq, vm_compute) == real predictors with the ramp stub "
-                   "(coordinates, values, NaN pattern, instance order, network input shapes, content maps)",
+                   "(coordinates, values, NaN pattern, instance order, network input shapes, content maps); cases with "
+                   "several video sizes in one labels file: MixedBatch.run_batch (one term per batch assembled by "
+                   "_predict_generator, the eff_scale list next to the frame list) == the same outputs, eff_scale per frame",
                    disagreements == 0, f"{disagreements} cases disagree")
     dist = {}
     for c in cases:
@@ -1031,9 +1252,12 @@ def check(run: core.Run) -> int:
     run.coverage.update({
         "input_distribution": dist, "disagreements": disagreements, **stats,
         "providers": ["LabelsReader", "VideoReader"],
-        "rule": "case = (model type, H, W, max_h, max_w, scales, max strides, output strides, crop, batch, refinement, "
-                "frames with animals/keypoints); each case is run through both providers; non-trivial = at least one "
-                "visible keypoint; distinct by full case content",
+        "rule": "case = (model type, H, W [or 2-3 video sizes + the video of every frame], max_h, max_w, scales, max strides, "
+                "output strides, crop (square or [height, width]), batch, refinement, frames with animals/keypoints); each case "
+                "is run through both providers (several video sizes: one labels file with all videos, batches mixing the sizes, "
+                "against one VideoReader run per video); non-trivial = at least one visible keypoint; distinct by full case content",
+        "mixed_size_cases": sum(1 for c in cases if is_mixed(c)),
+        "non_square_crop_cases": sum(1 for c in cases if "crop" in c and not isinstance(c["crop"], int) and c["kind"] in ("topdown", "topdown_gt")),
         "tolerance": {"coords_atol": ATOL, "coords_rtol": RTOL, "values_atol": VTOL},
         "general_position_margin_cells": str(MU),
     })
